@@ -687,6 +687,21 @@ pub(crate) fn openat2<Fd: AsFd, P: AsRef<Path>>(
     let mut how = how.clone();
     how.flags |= libc::O_CLOEXEC as u64;
 
+    // A path with an interior NUL byte cannot be passed to the kernel. Every
+    // other wrapper in this file goes through rustix, which fails with EINVAL
+    // in that case; silently truncating the path here instead would make the
+    // openat2 backend look up something other than what the caller (and the
+    // rest of libpathrs, which looks at the whole byte string) asked for.
+    if path.as_os_str().as_bytes().contains(&b'\0') {
+        return Err(Error::Openat2 {
+            dirfd: dirfd.into(),
+            path: path.into(),
+            how,
+            size: std::mem::size_of::<OpenHow>(),
+            source: Errno::INVAL,
+        });
+    }
+
     // SAFETY: Obviously safe-to-use Linux syscall.
     let fd = unsafe {
         libc::syscall(
